@@ -288,6 +288,12 @@ def render(spec: T.Dict[str, T.Any], sd: str) -> None:
     def subdir_of(e: T.Dict[str, T.Any]) -> str:
         return segs[e['seg']]
 
+    def hext(e: T.Dict[str, T.Any]) -> str:
+        # every fourth generated header is an X-macro style table called *.def (also *.map / *.inc): a file that is
+        # #included although its suffix is not a header's
+        import zlib
+        return ['.def', '.h', '.h', '.h', '.map', '.h', '.inc', '.h'][zlib.crc32(e['name'].encode()) % 8] if e['kind'] == 'hdr' else '.h'
+
     def outpath(e: T.Dict[str, T.Any], fname: str) -> str:
         d = subdir_of(e)
         return (d + '/' if d else '') + fname
@@ -295,7 +301,7 @@ def render(spec: T.Dict[str, T.Any], sd: str) -> None:
     def value_file(name: str) -> str:
         e = byname[name]
         if e['kind'] in ('hdr', 'cfg'):
-            return outpath(e, e['name'] + '.h')
+            return outpath(e, e['name'] + hext(e))
         if e['kind'] == 'value':
             return outpath(e, e['name'] + '.txt')
         if e['kind'] == 'run':
@@ -304,7 +310,7 @@ def render(spec: T.Dict[str, T.Any], sd: str) -> None:
 
     def hdr_file(name: str) -> str:
         e = byname[name]
-        return outpath(e, e['name'] + '.h')
+        return outpath(e, e['name'] + hext(e))
 
     def hdr_macro(name: str) -> str:
         return byname[name]['macro']
@@ -401,7 +407,7 @@ def render(spec: T.Dict[str, T.Any], sd: str) -> None:
             if e.get('depend_files'):
                 kw.append('depend_files: datafile')
                 args.append(q('@SOURCE_ROOT@/data.txt'))
-            out.append(f"{n} = custom_target('{n}', output: '{n}.h', command: [py, genpy, {', '.join(args)}]{''.join(', ' + x for x in kw)})\n")
+            out.append(f"{n} = custom_target('{n}', output: '{n}{hext(e)}', command: [py, genpy, {', '.join(args)}]{''.join(', ' + x for x in kw)})\n")
         elif k == 'pair':
             kw = []
             args = [q('pair'), q('@OUTPUT0@'), q('@OUTPUT1@'), q(n), q(str(e['val']))]
